@@ -361,14 +361,31 @@ func (vc *VC) assumePackageFacts(fr *Frame, env *SpecEnv) {
 	}
 }
 
+// varsIn: parameters plus captured variables (read from their cells in state st).
+func (fr *Frame) varsIn(st *State) map[string]*Val {
+	if len(fr.fn.FreeVars) == 0 {
+		return fr.params
+	}
+	vars := map[string]*Val{}
+	for k, v := range fr.params {
+		vars[k] = v
+	}
+	for _, fv := range fr.fn.FreeVars {
+		if cell, ok := fr.vals[fv]; ok {
+			vars[fv.Name()] = fr.capturedVal(fv, cell, st)
+		}
+	}
+	return vars
+}
+
 func (fr *Frame) specEnvEntry() *SpecEnv {
 	n := 0
-	return &SpecEnv{fr: fr, vars: fr.params, cur: fr.entry, old: fr.entry, pkg: pkgOf(fr.fn), nq: &n}
+	return &SpecEnv{fr: fr, vars: fr.varsIn(fr.entry), cur: fr.entry, old: fr.entry, pkg: pkgOf(fr.fn), nq: &n}
 }
 
 func (fr *Frame) specEnvExit(results []*Val) *SpecEnv {
 	n := 1000
-	env := &SpecEnv{fr: fr, vars: fr.params, cur: fr.st, old: fr.entry, pkg: pkgOf(fr.fn), nq: &n, results: results}
+	env := &SpecEnv{fr: fr, vars: fr.varsIn(fr.st), cur: fr.st, old: fr.entry, pkg: pkgOf(fr.fn), nq: &n, results: results}
 	sig := fr.fn.Signature
 	for i := 0; i < sig.Results().Len(); i++ {
 		env.resNames = append(env.resNames, sig.Results().At(i).Name())
@@ -378,14 +395,18 @@ func (fr *Frame) specEnvExit(results []*Val) *SpecEnv {
 
 func (fr *Frame) specEnvLoop(li *loopInfo) *SpecEnv {
 	n := 2000 + li.ordinal*100
-	vars := fr.params
-	if vars == nil {
+	var vars map[string]*Val
+	if fr.params != nil {
+		vars = fr.varsIn(fr.st)
+	} else {
 		vars = map[string]*Val{}
 		for _, p := range fr.fn.Params {
 			vars[p.Name()] = fr.vals[p]
 		}
 		for _, p := range fr.fn.FreeVars {
-			vars[p.Name()] = fr.vals[p]
+			if cell, ok := fr.vals[p]; ok {
+				vars[p.Name()] = fr.capturedVal(p, cell, fr.st)
+			}
 		}
 	}
 	entry := fr.entry
@@ -501,7 +522,7 @@ func (fr *Frame) contractCall(fc *FuncContract, callee *ssa.Function, args []*Va
 		if fr.curFv != nil {
 			for i, f := range callee.FreeVars {
 				if i < len(fr.curFv.Binds) {
-					vars[f.Name()] = fr.curFv.Binds[i]
+					vars[f.Name()] = fr.capturedVal(f, fr.curFv.Binds[i], fr.st)
 				}
 			}
 		}
